@@ -77,11 +77,18 @@ def build(entry, ch, acc, max_faults=4, shapes=None, flavor='plain', avoid='~*:^
 
 
 ENVELOPE_FAULTS = ['se-count', 'se-id', 'ge-count', 'ge-id', 'iea-count', 'iea-id', 'gs-date', 'gs-time', 'st-dup', 'gs-dup', 'gs-code',
-                   'se-count-alpha', 'st-id-long', 'se-count', 'st-dup', 'st-many-codes']
+                   'se-count-alpha', 'st-id-long', 'se-count', 'st-dup', 'st-many-codes', 'drop-trailer']
 
 
 def envelope_fault(doc, ch):
     """Damage one envelope field after bookkeeping (no recount). -> kind or None"""
+    try:
+        return _envelope_fault(doc, ch)
+    except (AttributeError, IndexError, ValueError):
+        return None         # the chosen field no longer exists (an earlier fault removed its segment)
+
+
+def _envelope_fault(doc, ch):
     kind = ch.choice(ENVELOPE_FAULTS)
     idx = lambda sid: [i for i, s in enumerate(doc.segs) if s.id == sid]
 
@@ -108,6 +115,12 @@ def envelope_fault(doc, ch):
                         break
                 return kind
         return None
+    elif kind == 'drop-trailer':
+        # a trailer missing in the middle of the file (the next header follows an unterminated set / group)
+        c = [i for i, s_ in enumerate(doc.segs) if s_.id in ('SE', 'GE') and i < len(doc.segs) - 2]
+        if not c:
+            return None
+        del doc.segs[c[ch.integer(0, len(c) - 1)]]
     elif kind == 'se-count-alpha':
         pick('SE').vals[0] = [ch.choice(['X1', 'A', '1.5', ''])]
     elif kind == 'st-id-long':
